@@ -34,6 +34,13 @@
 (*                     changes the name only, set_active_sheet changes the *)
 (*                     active tab only: every other sheet keeps all its    *)
 (*                     aspects (they move with their sheet).               *)
+(*  P6 other files     for a file written by another application: every     *)
+(*                     value the file states for one of these aspects is   *)
+(*                     what the getter shows after a load (an attribute    *)
+(*                     the file does not state is shown as never set), and *)
+(*                     load + save states to an independent reader what    *)
+(*                     the original file stated (checked on the files of   *)
+(*                     tests/test_files, opened eagerly and lazily).       *)
 (* Not demanded: any order of validations / conditional formats, any       *)
 (* encoding of the file beyond the values it states, behaviour for values  *)
 (* outside the schema's ranges.                                            *)
